@@ -299,11 +299,13 @@ impl Matrix {
         } else if nrows < 0 {
             assert!(nrows == -1 && ncols > 0, "invalid number of rows");
             // automatically determine number of rows
+            assert_eq!(size % ncols as usize, 0, "invalid shape");
             self.ncols = ncols as usize;
             self.nrows = size / ncols as usize;
         } else if ncols < 0 {
             assert!(ncols == -1 && nrows > 0, "invalid number of columns");
             // automatically determine number of columns
+            assert_eq!(size % nrows as usize, 0, "invalid shape");
             self.nrows = nrows as usize;
             self.ncols = size / nrows as usize;
         } else {
